@@ -200,6 +200,33 @@ def size_sweep(chk, thorough, rng, cap):
         s.send("get", ["1.3.6.1.2.1.1.1.0"])
         s.close()
         runs.append((a, rec.n, dict(cfg=name, L=len(cfg.community if cfg.ver != "v3" else cfg.user), reqs=reqs)))
+    # what fits is sent - whatever the session has RECEIVED before: replies and Reports announcing every msgMaxSize an agent may
+    # have (484 is the RFC 3412 minimum; 1472 / 1500 follow the MTU; 2048 echoes the client's own; 65507; 2^31-1), then requests
+    # below and above that value and around the buffer's capacity
+    for mi, M in enumerate((484, 1472, 1500, 2048, 4079, 65507, 2 ** 31 - 1)):
+        for base in ("v3-noauth", "v3-md5", "v3-sha1-aes"):
+            cfg = std[base]
+            a = rec.n
+            s = rawdrv.RawSession(rec, cfg, maxbuf=cap)
+            agent = ag.Agent(engine=cfg.engine)
+            reqs = [(1, 9), (20, 9), (60, 9), (110, 9), big[(mi * 5) % len(big)], (150, 9), big[(mi * 5 + 9) % len(big)], (3, 9)]
+            for j, (n, arcs) in enumerate(reqs):
+                oids = [oid_of(i, arcs) for i in range(n)]
+                op = "get" if n == 1 else "get_many"
+                w, exc = s.send(op, oids)
+                chk.case(("size-after-reply", base, M, n, arcs))
+                if w is None or j % 2:
+                    continue
+                req = ag.Request(cfg, w)
+                if req.broken:
+                    continue
+                if j % 4 == 0:
+                    s.inject(agent.reply(cfg, req, [(bytes(nm), ("int", 1)) for nm in req.names[:2]], max_size=M))
+                else:
+                    s.inject(agent.report(cfg, req, max_size=M))
+                s.recv(op)
+            s.close()
+            runs.append((a, rec.n, dict(cfg=base + "-after-msgMaxSize-%d" % M, L=len(cfg.user), reqs=reqs)))
     rec.close()
     nref = sum(1 for ev in rec.events if ev["ev"] == "Send" and ev.get("exc"))
     nsent = sum(1 for ev in rec.events if ev["ev"] == "Send" and not ev.get("exc"))
